@@ -51,8 +51,8 @@ def plan(tier, seed):
         ch.append({'k': 'dispatch', 'creators': NAME_CREATORS[i:i + step], 'plugins': True})
         ch.append({'k': 'dispatch', 'creators': NAME_CREATORS[i:i + step], 'plugins': False})
     ch += [{'k': 'src'}, {'k': 'osrc'}, {'k': 'm2c00'}, {'k': 'src_contain'}]
-    for b0 in range(5):
-        for b1 in range(5):
+    for b0 in range(len(BEH_BYTES)):
+        for b1 in range(len(BEH_BYTES)):
             ch.append({'k': 'contain', 'b0': b0, 'b1': b1})
     # the same under python -O (assertions stripped, __debug__ false)
     ch += [dict(c, optimize=True) for c in [{'k': 'src'}, {'k': 'osrc'}, {'k': 'm2c00'}, {'k': 'dispatch', 'creators': NAME_CREATORS[:8], 'plugins': True}]]
@@ -270,8 +270,8 @@ def _m2c00(case):
     return out
 
 
-BEH_BYTES = [0x00, 0x01, 0x02, 0x03, 0x04]      # ok, raise, ImportError in call, None, null  (imphook 'by-payload')
-BEH_NAMES = ['ok', 'raise', 'importerror', 'none', 'null']
+BEH_BYTES = [0x00, 0x01, 0x02, 0x03, 0x04, 0x0E, 0x0C]      # ok, raise, ImportError in call, None, null, 'null\\n', ' '  (imphook 'by-payload')
+BEH_NAMES = ['ok', 'raise', 'importerror', 'none', 'null', 'null+newline', 'blank']
 
 
 def _contain_pel(behs, order, creator='B'):
@@ -399,7 +399,8 @@ def _src_contain(case):
         det = a.pop('SRC Details', None) if isinstance(a, dict) else None
         if a != b:
             _bad(out, case, 'other-section-changed', '%s differs from the document without SRC parser (beyond SRC Details)' % k)
-        if beh in ('raise', 'importerror', 'none', 'null', 'empty', 'keyerror', 'nan', 'overflow', 'deep', 'hugeint', 'badjson') \
+        if beh in ('raise', 'importerror', 'none', 'null', 'empty', 'keyerror', 'nan', 'overflow', 'deep', 'hugeint', 'badjson',
+                   'blank', 'newline', 'nullnl', 'nullsp') \
                 and det is not None:
             _bad(out, case, 'src-details-from-failed-parser', '%s shows SRC Details %r although the parser %s' % (k, det, beh))
         if beh == 'obj' and k in ('Primary SRC', 'Secondary SRC') and not isinstance(det, dict):
@@ -458,7 +459,7 @@ def run_chunk(chunk):
                     for route in ('direct', 'pel'):
                         _do(res, {'k': 'm2c00', 'sub': sub, 'ver': ver, 'payload': payload.hex(), 'route': route}, step=37)
     elif k == 'contain':
-        for b2 in range(5):
+        for b2 in range(len(BEH_BYTES)):
             for order in itertools.permutations(range(3)):
                 _do(res, {'k': 'contain', 'behs': [chunk['b0'], chunk['b1'], b2], 'order': list(order)}, step=11)
     elif k == 'src_contain':
@@ -466,7 +467,7 @@ def run_chunk(chunk):
             for cr in ('B', 'x'):
                 _do(res, {'k': 'src_seq', 'first': first, 'creator': cr}, step=3)
         for beh in ('obj', 'raise', 'importerror', 'keyerror', 'none', 'null', 'empty', 'absent', 'import-raises',
-                        'nan', 'overflow', 'deep', 'hugeint', 'badjson'):   # the last five: text that cannot enter the PEL document
+                        'blank', 'newline', 'nullnl', 'nullsp', 'nan', 'overflow', 'deep', 'hugeint', 'badjson'):   # the last five: text that cannot enter the PEL document
             for cr in ('B', 'x'):
                 _do(res, {'k': 'src_contain', 'beh': beh, 'creator': cr}, step=5)
     return res
